@@ -17,7 +17,7 @@ from mc import boundx
 from mc import statex
 from mc import c16_world as W
 
-BUDGET = {'quick': 75, 'thorough': 600}
+BUDGET = {'quick': 240, 'thorough': 600}
 # `_unshare_network` / `_cleanup_network` iterate a *set* of resolved
 # passthrough addresses (strings): hash order decides the order of rule
 # creation, so the thorough tier repeats the sweep under 3 hash seeds.
